@@ -2051,3 +2051,11 @@ Proof.
   - split; [discriminate|]. exact (H2 H).
   - split; [discriminate|]. exact (H2 H).
 Qed.
+
+(* at the root the receiver's scheduler is get_scheduler(root receiver) = the scheduler of context
+   e_sched (root_env pre) = 0: with_scheduler_affinity completes there *)
+Theorem wsa_via_root_sched id s pre script :
+  ~ In id (map fst (scheds s)) -> no_ev_on id script ->
+  forall o n cx, In (XRoot o n cx) (r_tr (exec (wsa_via id (e_sched (root_env pre)) s) pre script)) ->
+                 cx = e_sched (root_env pre).
+Proof. intros H1 H2. apply wsa_via_completes_on_ctx; assumption. Qed.
